@@ -65,6 +65,7 @@ type Program struct {
 //	stream      OpenStream(ref, dict, filters...), Write in chunks, Close;
 //	            the actions in During are issued while the stream is open
 //	reput       Put(new ref, the very same Go value as used by action Src)
+//	reputstream Put(new ref, the very same *pdf.Stream object as used by an earlier putstream action)
 //	bulk        N Puts of small objects expanded from Seed (large cross-reference data)
 type Action struct {
 	Op      string   `json:"op"`
@@ -340,6 +341,12 @@ func (p *Program) Run(sink io.Writer) *Result {
 	}
 	var handed []owned
 	var putVals []owned // values of put actions, for reput
+	type ownedStream struct {
+		stm  *pdf.Stream
+		dict gen.O
+		data []byte
+	}
+	var putStreams []ownedStream // stream objects of putstream actions, for reputstream
 
 	inOpenStream := false
 	getRef := func(a *Action) pdf.Reference {
@@ -419,7 +426,18 @@ func (p *Program) Run(sink io.Writer) *Result {
 			if !bytes.Equal(data, a.Data) {
 				res.Mutated = fmt.Errorf("Put(stream) modified the data slice handed to NewStream")
 			}
+			putStreams = append(putStreams, ownedStream{stm, *a.Dict, a.Data})
 			res.Entries = append(res.Entries, &Entry{Ref: ref, IsStream: true, Dict: *a.Dict, Data: a.Data, Deferred: inStream})
+		case "reputstream":
+			if len(putStreams) == 0 {
+				return "", nil
+			}
+			src := putStreams[a.Src%len(putStreams)]
+			ref := getRef(a)
+			if err := w.Put(ref, src.stm); err != nil {
+				return "Put(reused stream object)", err
+			}
+			res.Entries = append(res.Entries, &Entry{Ref: ref, IsStream: true, Dict: src.dict, Data: src.data, Deferred: inStream, Reused: true})
 		case "compressed":
 			if inStream {
 				return "", nil // documented as an error while a stream is open; not generated
@@ -855,7 +873,7 @@ func Gen(o Opts) *rapid.Generator[Program] {
 		var drawAction func(inStream bool) Action
 		drawAction = func(inStream bool) Action {
 			var a Action
-			ops := []string{"alloc", "put", "put", "put", "putstream", "reput"}
+			ops := []string{"alloc", "put", "put", "put", "putstream", "reput", "reputstream"}
 			if !inStream {
 				ops = append(ops, "stream", "stream", "stream")
 				if !o.NoCompressed {
@@ -874,7 +892,7 @@ func Gen(o Opts) *rapid.Generator[Program] {
 				drawRef(&a)
 				ob := drawObj("obj")
 				a.Obj = &ob
-			case "reput":
+			case "reput", "reputstream":
 				drawRef(&a)
 				a.Src = rapid.IntRange(0, 7).Draw(t, "src")
 			case "putstream":
